@@ -27,6 +27,7 @@ package fiber
 //@   pure
 
 //@ func (*App).quoteString
+//@   pure
 //@   ensures quoted-is-one-line: noCRLF(result)
 
 // Attachment/Download percent-encode the file name (quoteString), JSONP passes a constant: these callers
@@ -34,7 +35,10 @@ package fiber
 //@ func (*DefaultCtx).Attachment
 //@   atcall (*DefaultCtx).setCanonical: file-name-escaped: noCRLF(val)
 
+// (round B: Download ends in SendFile, which now has a contract - its two preconditions are passed on to the handler)
 //@ func (*DefaultCtx).Download
+//@   requires wf-immutable: wfImmutable(c)
+//@   requires store-unlocked: !held(c.app.sendfilesMutex)
 //@   atcall (*DefaultCtx).setCanonical: file-name-escaped: noCRLF(val)
 
 // Links and Location pass the handler's strings on unchanged (setCanonical has to cope).
